@@ -1,4 +1,5 @@
 import GixModel.Lemmas.C11
+import GixModel.Lemmas.C56Toy
 /-
 C11 — Loose objects written by gitoxide are git objects and read back exactly.  PROPERTY THEOREMS ONLY.
 
@@ -106,6 +107,18 @@ theorem header_roundtrip (k : Kind) (n : Nat) (h : n < 2 ^ 64) (rest : Bytes) :
 -- non-vacuity of `n < 2^64` at the longest header
 example : decodeLooseHeader (looseHeader .commit 18446744073709551615 ++ [1, 2, 3]) = some (.commit, 18446744073709551615, 28) :=
   header_roundtrip .commit _ (by decide) _
+
+-- non-vacuity of the zlib hypotheses: the codec of Lemmas/C56Toy.lean satisfies both contracts for one
+-- stream relation (Props.C56.contracts_satisfiable); the end-to-end theorem instantiated with it:
+example (f : BlockFn) (k : Kind) (chunks : List Bytes) :=
+  read_write Toy.compressorOk Toy.decompressorOk f
+    (fun w c => Toy.compressorOk.rank w.comp c.length .none + 1) (fun w => Toy.compressorOk.rank w.comp 0 .finish + 1)
+    (fun _ _ => Nat.lt_succ_self _) (fun _ => Nat.lt_succ_self _) k chunks
+
+-- … and the truncation theorem: every strict prefix of that codec's stream of a 3-byte blob is an error
+example (p : Bytes) (hp : p <+: Toy.enc (looseHeader .blob 3 ++ [1, 2, 3])) (hne : p ≠ Toy.enc (looseHeader .blob 3 ++ [1, 2, 3])) :=
+  truncated_is_error Toy.decompressorOk .blob [1, 2, 3] (Toy.enc (looseHeader .blob 3 ++ [1, 2, 3])) p rfl hp hne
+    (by simp [Toy.enc_length, looseHeader]; decide)
 
 /-! ### the defect that was repaired (commit cbe15c1bf) -/
 
